@@ -160,7 +160,8 @@ fn tensor_torn(req: &Value) -> Value {
 fn tensor_manual(req: &Value) -> Value {
     let dir = tmpdir();
     let path = dir.join("store.wal");
-    let cfg = || WalConfig { sync_mode: SyncMode::Manual, ..WalConfig::default() };
+    let batched = req["batched"].as_u64();
+    let cfg = || WalConfig { sync_mode: batched.map_or(SyncMode::Manual, |n| SyncMode::Batched { max_entries: n as usize }), ..WalConfig::default() };
     let mut wal = TensorWal::open(&path, cfg()).unwrap();
     let mut errs = vec![];
     for s in req["steps"].as_array().into_iter().flatten() {
